@@ -299,6 +299,7 @@ func checkC15(c *Ctx) {
 
 	// dispatcher: function with comma-ok lookup in a map of funcs keyed by the request's method
 	var dispatcher *ssa.Function
+	var dispCands []*ssa.Function
 	for _, fn := range c.P.LibFns {
 		ir.EachInstr(fn, func(_ *ssa.BasicBlock, _ int, in ssa.Instruction) {
 			lk, ok := in.(*ssa.Lookup)
@@ -317,10 +318,17 @@ func checkC15(c *Ctx) {
 					}
 				}
 				if takesReq {
-					dispatcher = fn
+					dispCands = append(dispCands, fn)
 				}
 			}
 		})
+	}
+	// the one the middleware entry reaches (other transports may have a routing table of their own)
+	entryReach := c.Reach(entry)
+	for _, d := range dispCands {
+		if entryReach[d] {
+			dispatcher = d
+		}
 	}
 	if dispatcher == nil {
 		c.R.Break("dispatcher (comma-ok lookup of the request method in a table of handler funcs) not found")
